@@ -17,7 +17,7 @@ import re
 import tlc
 from common import spec, cfgpath
 
-PAT_TEXT = {'x': '/x', 'yb': '/y/', 'v': '/<v>', 'vb': '/<v>/', 'xy': '/x/y'}
+PAT_TEXT = {'x': '/x', 'yb': '/y/', 'v': '/<v>', 'vb': '/<v>/', 'xy': '/x/y', 'rootb': '/'}
 PREFIX_TEXT = {'p': '/p', 'pq': '/p/q', 'root': '/', 'x': '/x'}
 TAG = re.compile(r'\[\[(.*?)\]\]', re.S)
 
